@@ -632,29 +632,9 @@ impl ToplevelDefinition {
     }
 
     pub(crate) fn apply_tagging_environment(&mut self, environment: &TaggingEnvironment) {
-        if let (env, ToplevelDefinition::Type(ty)) = (environment, self) {
-            ty.tag = ty.tag.as_ref().map(|t| AsnTag {
-                environment: env + &t.environment,
-                tag_class: t.tag_class,
-                id: t.id,
-            });
-            match &mut ty.ty {
-                ASN1Type::Sequence(s) | ASN1Type::Set(s) => s.members.iter_mut().for_each(|m| {
-                    m.tag = m.tag.as_ref().map(|t| AsnTag {
-                        environment: env + &t.environment,
-                        tag_class: t.tag_class,
-                        id: t.id,
-                    });
-                }),
-                ASN1Type::Choice(c) => c.options.iter_mut().for_each(|o| {
-                    o.tag = o.tag.as_ref().map(|t| AsnTag {
-                        environment: env + &t.environment,
-                        tag_class: t.tag_class,
-                        id: t.id,
-                    });
-                }),
-                _ => (),
-            }
+        if let ToplevelDefinition::Type(ty) = self {
+            ty.tag = ty.tag.as_ref().map(|t| t.in_environment(environment));
+            ty.ty.apply_tagging_environment(environment);
         }
     }
 
@@ -1310,6 +1290,42 @@ impl From<((Option<&str>, u64), Option<TaggingEnvironment>)> for AsnTag {
             tag_class,
             id: value.0 .1,
             environment: value.1.unwrap_or(TaggingEnvironment::Automatic),
+        }
+    }
+}
+
+impl AsnTag {
+    /// The tag as it is to be read in a module with the given tagging default.
+    fn in_environment(&self, environment: &TaggingEnvironment) -> AsnTag {
+        AsnTag {
+            environment: environment + &self.environment,
+            tag_class: self.tag_class,
+            id: self.id,
+        }
+    }
+}
+
+impl ASN1Type {
+    /// Applies the module's tagging default to the tags of all components,
+    /// alternatives and element types, at any depth of anonymous nested types.
+    fn apply_tagging_environment(&mut self, environment: &TaggingEnvironment) {
+        match self {
+            ASN1Type::Sequence(s) | ASN1Type::Set(s) => s.members.iter_mut().for_each(|m| {
+                m.tag = m.tag.as_ref().map(|t| t.in_environment(environment));
+                m.ty.apply_tagging_environment(environment);
+            }),
+            ASN1Type::Choice(c) => c.options.iter_mut().for_each(|o| {
+                o.tag = o.tag.as_ref().map(|t| t.in_environment(environment));
+                o.ty.apply_tagging_environment(environment);
+            }),
+            ASN1Type::SequenceOf(s) | ASN1Type::SetOf(s) => {
+                s.element_tag = s
+                    .element_tag
+                    .as_ref()
+                    .map(|t| t.in_environment(environment));
+                s.element_type.apply_tagging_environment(environment);
+            }
+            _ => (),
         }
     }
 }
